@@ -28,6 +28,7 @@ EXPLANATION = (
     'the pool-state flags change only by RMW, out_of_work clears only through the has-tasks predicates covering all task '
     'sources; D7 the worker sleep list and the request serializer state are touched only under their mutexes.  Liveness itself '
     '(eventual execution, OS semaphore fairness) is NOT decided.')
+EXPLANATION += ' Added after the seeded-change rounds: ' + 'D4 also: task_arena_impl::execute notifies the exit monitor on every path from prepare_wait to the function exit unless a slot was occupied; D5 also: the bounded-queue wake-up predicate is downward closed (ticket <= notified ticket).'
 ASSUMPTIONS = ['C++11 memory model; only seq_cst fences / seq_cst RMWs order a store before a later load',
                'futex / OS semaphore below the P/V interface are trusted', 'Linux configuration (__TBB_USE_FUTEX) is analysed']
 ND = ['eventual execution (liveness) itself', 'fairness of the OS semaphore/futex', 'thread_monitor internals below P/V']
